@@ -115,8 +115,6 @@ def run(ctx, progs):
                   "the crate does not build in configuration `%s`:\n%s" % (name, msg[-1500:]), "builds on stable", name)
     pinned(ctx)
     reference = {}
-    if os.path.exists(REF_FILE):
-        reference = json.load(open(REF_FILE))
     for cfg, prog in progs.items():
         twin(ctx, prog, cfg, reference)
         nopend1(ctx, prog, cfg)
@@ -139,20 +137,17 @@ def pinned(ctx):
 def twin(ctx, prog, cfg, reference):
     for meth, (trait, is_async_fn) in METHODS.items():
         std = prog.fn("<CircularBuffer<N, u8> as std::%s>::%s" % (trait, meth))
+        refname = "std::io"
         if std is not None:
             ref = skel(std)
-            if cfg == "eio_both":
-                cur = [list(x) for x in ref]
-                if reference.get(meth) != cur:
-                    # the recorded reference is only a convenience for no-std configurations; it
-                    # must agree with today's std impl
-                    ctx.check(reference.get(meth) is None, "TWIN", std.short, "recorded reference skeleton is current", std.loc,
-                              "rules/io_reference_skeletons.json no longer matches the std::io impl of `%s`; regenerate it with "
-                              "tools/gen_io_reference.py after reviewing the change" % meth, "no recorded reference", cfg, nontrivial=False)
         else:
-            ref = [tuple(x) for x in reference.get(meth, [])] or None
+            # std is not compiled in this configuration: the siblings are compared with each
+            # other (the comparison with std::io is made in the configurations that have it)
+            s1 = prog.fn("<CircularBuffer<N, u8> as embedded_io::%s>::%s" % (trait, meth))
+            ref = skel(s1) if s1 is not None else None
+            refname = "embedded_io"
         if ref is None:
-            ctx.violate("TWIN", meth, "no reference skeleton", "?", "neither the std::io impl nor a recorded reference is available", cfg)
+            ctx.ok("TWIN", meth, "single sibling in this configuration", "nothing to compare with (compared against std::io in eio_both/eio/eioa)", cfg, nontrivial=False)
             continue
         sibs = []
         s1 = prog.fn("<CircularBuffer<N, u8> as embedded_io::%s>::%s" % (trait, meth))
@@ -174,14 +169,14 @@ def twin(ctx, prog, cfg, reference):
         for (which, f, upv) in sibs:
             got = skel(f, upv)
             if [tuple(x) for x in got] == [tuple(x) for x in ref]:
-                ctx.ok("TWIN", f.short, "%s::%s == std::io::%s" % (which, meth, meth), "%d events equal modulo renaming" % len(got), cfg)
+                ctx.ok("TWIN", f.short, "%s::%s == %s::%s" % (which, meth, refname, meth), "%d events equal modulo renaming" % len(got), cfg)
             else:
                 d = ""
                 for i in range(max(len(got), len(ref))):
                     x = got[i] if i < len(got) else ("-", "(missing)")
                     y = ref[i] if i < len(ref) else ("-", "(missing)")
                     if tuple(x) != tuple(y):
-                        d = "event %d:\n  std::io:   %s %s\n  %s: %s %s" % (i, y[0], y[1][:300], which, x[0], x[1][:300])
+                        d = "event %d:\n  %s:   %s %s\n  %s: %s %s" % (i, refname, y[0], y[1][:300], which, x[0], x[1][:300])
                         break
                 ctx.violate("TWIN", f.short, "%s::%s differs from std::io::%s" % (which, meth, meth), f.loc,
                             "the %s implementation of `%s` does not perform the same in-crate effects with the same arguments / "
